@@ -2,6 +2,8 @@
      init K ATOMIC          reset: K workers, ATOMIC in {0,1}
      client SCRIPT TARGET   EClient
      recv I | main I | server I ASG     one event; ASG = [[worker [pos ...]] ...]
+     explore ATOMIC K SCRIPT LIMIT   breadth-first search over ALL schedules and server assignments of one
+                            root body on K workers; prints counters (double wakes, failed assertions, deadlocks)
      ghost                  print per worker [log started finished created errs oos], then [client errors fatal]
    Every event answers `DISABLED` or the canonical dump of the whole state.
    SCRIPT = [[sub SCRIPT] [map [SCRIPT ...]] [aw F] [nx F] [na F] [ret V] ...] *)
@@ -65,6 +67,54 @@ let asg_of v = List.map (fun p -> match p with
   | L [I w; L idx] -> (nat_of_int w, List.map (fun i -> nat_of_int (int_of i)) idx)
   | _ -> failwith "asg") (list_of v)
 
+(* ---- exhaustive exploration of all schedules of a small scenario (validation / counterexample search) ---- *)
+let rec nat_list n = if n <= 0 then [] else nat_list (n-1) @ [n-1]
+let rec assignments k n : int list list =      (* all maps position -> worker *)
+  if n = 0 then [[]] else List.concat_map (fun rest -> List.map (fun w -> w :: rest) (nat_list k)) (assignments k (n-1))
+let asg_of_map (mp : int list) k =
+  List.filter (fun (_, l) -> l <> [])
+    (List.map (fun w -> (nat_of_int w, List.map nat_of_int (List.filter (fun i -> List.nth mp i = w) (nat_list (List.length mp))))) (nat_list k))
+let enabled_events atomic s : event list =
+  let k = List.length s.s_workers in
+  let evs = ref [] in
+  List.iteri (fun i w ->
+    (match List.nth s.s_down i with _ :: _ when not w.w_rdead -> evs := ERecv (nat_of_int i) :: !evs | _ -> ());
+    (match main_step atomic w with Some _ -> evs := EMain (nat_of_int i) :: !evs | None -> ());
+    (match w.w_out with
+     | MSubmit _ :: _ -> List.iter (fun j -> evs := EServer (nat_of_int i, [(nat_of_int j, [O])]) :: !evs) (nat_list k)
+     | MSubmitBatch ts :: _ -> List.iter (fun mp -> evs := EServer (nat_of_int i, asg_of_map mp k) :: !evs) (assignments k (List.length ts))
+     | _ :: _ -> evs := EServer (nat_of_int i, []) :: !evs
+     | [] -> ())) s.s_workers;
+  !evs
+let dup l = let rec go = function [] -> false | x :: r -> List.mem x r || go r in go l
+let explore atomic k script limit =
+  let seen = Hashtbl.create 100000 in
+  let q = Queue.create () in
+  let s0 = match step atomic (sys0 (nat_of_int k)) (EClient (script, O)) with Some s -> s | None -> failwith "client" in
+  Queue.add s0 q; Hashtbl.replace seen (show (vsys s0) ^ show (vghost s0)) ();
+  let states = ref 0 and quiescent = ref 0 and dw = ref 0 and asserts = ref 0 and deadlock = ref 0 and oos = ref 0 and trunc = ref false in
+  while not (Queue.is_empty q) do
+    let s = Queue.pop q in
+    incr states;
+    if List.exists (fun w -> dup w.w_ready) s.s_workers then incr dw;
+    if List.exists (fun e -> e = EAssertReady || e = EAssertFresh) (all_errs s) then incr asserts;
+    if not (in_scope s) then incr oos;
+    let evs = enabled_events atomic s in
+    if evs = [] then begin
+      incr quiescent;
+      if in_scope s && all_errs s = [] && (List.exists (fun w -> w.w_tasks <> []) s.s_workers || s.s_client = []) then incr deadlock
+    end;
+    List.iter (fun e -> match step atomic s e with
+      | Some s' ->
+        let key = show (vsys s') ^ show (vghost s') in
+        if not (Hashtbl.mem seen key) then
+          if Hashtbl.length seen >= limit then trunc := true
+          else (Hashtbl.replace seen key (); Queue.add s' q)
+      | None -> ()) evs
+  done;
+  Printf.sprintf "states=%d quiescent=%d double_wake=%d assert_failed=%d deadlock=%d out_of_scope=%d truncated=%b"
+    !states !quiescent !dw !asserts !deadlock !oos !trunc
+
 let st = ref (sys0 O)
 let atomic = ref false
 let ev e = match step !atomic !st e with
@@ -77,6 +127,7 @@ let handle line = match parse line with
   | [A "main"; I i] -> ev (EMain (nat_of_int i))
   | [A "server"; I i; asg] -> ev (EServer (nat_of_int i, asg_of asg))
   | [A "ghost"] -> show (vghost !st)
+  | [A "explore"; I a; I k; sc; I limit] -> explore (a <> 0) k (script_of sc) limit
   | _ -> "BADCMD"
 
 let () =
